@@ -1,54 +1,12 @@
 #!/usr/bin/env python3
-"""Regenerates /verif/MANIFEST.json from the table below (keeps it schema-valid)."""
+"""Regenerates /verif/MANIFEST.json from tools/checks_meta.json (keeps it schema-valid)."""
 import json
 import os
 
 ROOT = os.path.dirname(os.path.dirname(os.path.abspath(__file__)))
 props = [json.loads(l)["id"] for l in open(os.path.join(ROOT, "properties.jsonl"))]
-
+CHECKS = json.load(open(os.path.join(ROOT, "tools", "checks_meta.json")))
 BASE = "cd /repo && /venv/bin/python -m pytest -ra -q -p no:cacheprovider --timeout=900 --continue-on-collection-errors"
-
-CHECKS = {
- "C12": dict(
-  technique="runtime monitoring: finite-difference and exact-transpose oracles over randomly generated map/normaliser configurations of the real classes",
-  text="Exploration: every class in ALL_CLASSES and every normaliser class x semilocal mode is driven with random parameters, index assignments and inputs; the derivative routines are compared with 4th-order finite differences of the value routines (1e-7 of scale, measured floor 1e-9) and forward/reverse routines with an exact transpose test (1e-12). Held = no oracle failed on the executions produced.",
-  note="Inputs kept inside each map's smooth domain; FD oracle resolution 1e-7 relative; trusted: numpy.",
-  ref="5/C12"),
-
- "C01": dict(
-  technique="runtime monitoring: Richardson finite-difference oracle of the returned XC energy vs <vmat, D> on the real integrators, hermiticity and electron-count monitors",
-  text="Exploration: synthetic models of every feature family (semilocal in 4 modes, NLDF i/j/ij/k at GGA/MGGA level, rho_mult expnt, SDMX variants, NLDF+SDMX) x RKS/UKS x plan/interpolator/evaluator/spin-mode/mixing/model-class options are driven through CiderNumInt.nr_rks/nr_uks with random admissible non-converged density matrices; <vmat,D> is compared with the extrapolated central difference of the returned energy along dense and single-pair directions (1e-7 semilocal/SDMX, 1e-5 NLDF; self-error guard). Held = no oracle failed on the executions produced.",
-  note="PSD density matrices only; resolution of the FD oracle; pyscf, libxc (pyscf's copy), OpenBLAS trusted; C libs rebuilt with gcc -O2 from the working tree.",
-  ref="5/C01"),
- "C07": dict(
-  technique="runtime monitoring: differential execution of restricted vs unrestricted paths, spin-label swap and separability relations at integrator, model and layer level",
-  text="Exploration: for every feature family and spin mode the same synthetic model is evaluated through nr_rks(dm) and nr_uks((dm/2,dm/2)), through nr_uks((a,b)) and nr_uks((b,a)) (incl. fully polarised densities), and for SEP models against (E[2a]+E[2b])/2; MappedXC with nspin 1 vs duplicated channels; SemilocalPlan / exponent / baseline nspin branches pointwise. Tolerance 1e-8 x scale end to end (floor 5e-10), 1e-10 model level.",
-  note="The potential of an exactly empty spin channel of POL-mode NLDF models is ill-conditioned (measured) and only required to be finite; pyscf trusted.",
-  ref="5/C07"),
- "C09": dict(
-  technique="runtime monitoring: recorded call histories on one integrator checked against a fresh-object reference model; digests of caller-owned arrays",
-  text="Exploration: histories of 5-9 operations (rks/uks, single/batched, repeated, other molecule or geometry, tiny max_memory) on ONE CiderNumInt per feature family are compared step by step with fresh-object single calls (1e-9 x scale; observed floor 1e-15); caller-owned density matrices, feature arrays and the arrays given to the pointwise helpers are digested before/after; evaluator chunking around 2000 samples.",
-  note="Bitwise equality not demanded; reference = same code on fresh objects (so a defect common to both is invisible here, C01 covers it).",
-  ref="5/C09"),
-
- "C19": dict(
-  technique="runtime monitoring: exact structural invariants of the built grid objects (sorted point tables vs PySCF, index-map injectivity, independent coordinate reconstruction, padding, pruning, per-shell Ylm orthonormality) over generated configurations",
-  text="Exploration: CiderGrids and pyscf Grids are built for generated (molecule, level | atom_grid form, prune scheme, lmax, alignment, sort, radial/Becke scheme) configurations and call histories (prune_by_density_ sequences, rebuild, relevel); sorted (x,y,z,w) tables must be bitwise equal, idx_map injective, coordinates reconstructed from the indexer tables alone equal the sorted grid (1e-13), weights exact, padding weights exactly zero, Ylm Gram matrices identity up to the supported degree (1e-12) and zero above. lmax < 1 must be rejected (ASan worker).",
-  note="pyscf's grid generator is the reference by definition; Lebedev degree table from pyscf.",
-  ref="5/C19"),
-
- "C06": dict(
-  technique="runtime monitoring: metamorphic differential execution on rigidly moved / relabelled molecules with the density matrix transported by a harness-built, per-case validated AO representation",
-  text="Exploration: for every feature family the same synthetic model is evaluated on a jittered C1 molecule and on its image under a translation, octahedral operations (all 48 enumerated over the thorough run, improper ones included) composed with translations, an atom permutation and a Haar rotation; E' = E, vmat' = U vmat U^T (1e-8 x scale; floor 4e-11) and the raw per-point features at mapped grid points (1e-7) are compared; for Haar rotations the energy difference is bounded per grid level and may not grow with the level.",
-  note="U(g) is built from pyscf AO evaluations and validated against pyscf overlap/kinetic matrices per case (else inconclusive); pyscf's grid generator trusted to be covariant.",
-  ref="5/C06"),
- "C16": dict(
-  technique="runtime monitoring: recorded training histories (store / add / reset / fit orders) checked against a dense reference solver written from docs/theory/gp.rst",
-  text="Exploration: synthetic training sets (3-8 systems, nspin 1/2, reactions with counts, noises, weights, units, orbital entries) are driven through MOLGP / MOLGP2 in random call orders; stored covariances, labels and noises are compared with direct sums, the fitted weights/predictions/residuals with a refined-LU dense reference of the documented linear system (tolerances in rounding-propagation bound units), order/reset invariance up to the induced permutation, and compute_likelihood with the Gaussian log marginal likelihood.",
-  note="Hyper-parameter optimisation not covered; configurations that raise before any fit exists are recorded as observations.",
-  ref="5/C16"),
-}
-
 NOT_YET = "check not implemented yet (framework under construction)"
 
 checks, na = [], []
